@@ -220,7 +220,7 @@ example : (1 ≤ f32.mant ∧ 2 ≤ f32.exp) ∧ (1 ≤ f64.mant ∧ 2 ≤ f64.e
       `constuint`, `localconst`)
     * `parse_expr_as_u32` — `[[rssl::bind_group(n)]]` (`bindgroup`)
     * `add_stage` — `numthreads` arguments (`numthreads`); `extract_uint32`, `extract_float` — pipeline
-      properties (`pipelineprop`; float properties are not exercised)
+      and static sampler properties (`pipelineprop`, `maxanisotropy`, `writemask`; `minlod`, `maxlod`)
     * `parse_statement` — case labels (`case`); `parse_statement_attribute` — `[unroll(n)]` (`unroll`)
     * `parse_and_evaluate_constant_expression` — template value arguments and their defaults (`template`) -/
 def reviewedSites : List (String × String × String × String × String × Bool) := [
